@@ -134,6 +134,14 @@ func worker(c *checks.Check, tier string, seed int64, shard, n int, out string) 
 
 func parent(c *checks.Check, tier string, seed int64, n int) int {
 	start := time.Now()
+	// scratch directories left behind by runs that were killed (older than two hours)
+	if old, _ := filepath.Glob(filepath.Join(os.TempDir(), "vcheck-C*")); len(old) > 0 {
+		for _, d := range old {
+			if fi, err := os.Stat(d); err == nil && fi.IsDir() && time.Since(fi.ModTime()) > 2*time.Hour {
+				os.RemoveAll(d)
+			}
+		}
+	}
 	dir, err := os.MkdirTemp("", "vcheck-"+c.ID+"-")
 	if err != nil {
 		fmt.Println("infrastructure error:", err)
